@@ -217,8 +217,69 @@ def run(ctx):
             y_rec = np.asarray(ekf.innovations[key], dtype=float)
             if not eh.mat_close(y_rec, [[v] for v in want["y"]]):
                 ctx.fail("discard-innovation-not-recorded", "the innovation recorded for a reading differs from z - h(x)", case)
+        # a simulated measurement: the reading object is what the filter's OWN sensor model returns for a (far away) true state
+        if k is not None:
+            key = sorted(d.sensors)[0]
+            Lr = sorted(d.sensors[key])
+            est = gen.gen_point(ctx.rng, d)
+            truth = {"dt": est["dt"], "cal": est["cal"], "control": est["control"], "state": {n_: v_ + 40 for n_, v_ in est["state"].items()}}
+            P = eh.spd(ctx.rng, len(Ls))
+            with fk.quiet():
+                zobj = ekf.sensor_models[key].model(eh.state_obj(ekf, truth))
+                zvals = [float(v_) for v_ in np.asarray(zobj.data, dtype=float).reshape(-1)]
+            z = {r: F(v_) for r, v_ in zip(Lr, zvals)}
+            want = C05.oracle_update(d, d.sensors[key], sensor[key], eh.subs_map(d, est), P, [est["state"][n_] for n_ in Ls], z)
+            thr = k * math.sqrt(2 * len(Lr)) + len(Lr)
+            case = {"def": d.describe(), "k": k, "point": eh.point_json(est), "truth": eh.point_json(truth), "P": eh.mat_json(P), "nis": float(want["nis"]),
+                    "stream": "reading-from-own-sensor-model"}
+            ctx.case(case, True); ctx.count("stream=reading-from-own-sensor-model")
+            if abs(float(want["nis"]) - thr) > 1e-7 * (1 + thr):
+                st, cv = eh.state_obj(ekf, est), eh.cov_obj(ekf, P)
+                snap = (st.data.copy(), cv.data.copy())
+                try:
+                    with fk.quiet():
+                        res = ekf.sensor_model(st, cv, sensor_key=key, sensor_reading=zobj)
+                    unchanged = np.array_equal(res.state.data, snap[0]) and np.array_equal(res.covariance.data, snap[1])
+                    should = float(want["nis"]) > thr
+                    if should != unchanged:
+                        ctx.fail("discard-missed" if should else "discard-spurious", f"a reading produced by the filter's own sensor model for another state, NIS "
+                                 f"{float(want['nis'])!r} vs threshold {thr!r}: {'used' if should else 'discarded'}", case)
+                    elif not eh.mat_close(np.asarray(ekf.innovations[key], dtype=float), [[v_] for v_ in want["y"]]):
+                        ctx.fail("discard-innovation-not-recorded", "the innovation recorded for a reading produced by the filter's own sensor model differs "
+                                 "from z - h(x)", case)
+                except Exception as e:
+                    ctx.fail(f"sensor-model-raises:{fk.exc_kind(e)}:own-model-reading", repr(e)[:300], case)
     generated_threshold(ctx)
+    estimator_follows_its_threshold(ctx)
     return core.finish(ctx, audit, NOTE, RULE, PARTIAL)
+
+
+def estimator_follows_its_threshold(ctx):
+    """the scikit-learn estimator discards with the threshold it is configured with NOW: after set_params(innovation_filtering=...)
+    on an estimator that has already been used, the decisions are those of a fresh estimator with that threshold"""
+    from props import C16
+    for i in range(2 if ctx.quick else 8):
+        d = gen.tame_definition(ctx.rng, n_state=2, n_control=1, n_sensors=1, max_readings=2)
+        process, sensor = eh.make_noises(ctx.rng, d)
+        width = len(d.control) + sum(len(rd) for rd in d.sensors.values())
+        X = np.array([[float(gen.dyadic(ctx.rng, -1, 1)) for _ in range(width)] for _ in range(4)], dtype=float)
+        X[1, len(d.control):] += 60.0          # a gross outlier row
+        case = {"def": d.describe(), "stream": "estimator-threshold-changed", "X": X.tolist()}
+        ctx.case(case, True); ctx.count("stream=estimator-threshold-changed")
+        try:
+            with fk.quiet():
+                ad = C16.make_adapter(d, process, sensor, {}, 4.0)
+                ad.transform(X)
+                for k2 in (None, 1e6, 0.5):
+                    ad.set_params(innovation_filtering=k2)
+                    got = np.asarray(ad.transform(X), dtype=float)
+                    fresh = np.asarray(C16.make_adapter(d, process, sensor, {}, k2).transform(X), dtype=float)
+                    if got.shape != fresh.shape or float(np.max(np.abs(got - fresh))) > 1e-9 * (1 + float(np.max(np.abs(fresh)))):
+                        ctx.fail("decision:estimator:stale-threshold", f"after set_params(innovation_filtering={k2!r}) on a used estimator, transform gives "
+                                 f"{got.tolist()}; a fresh estimator with that threshold gives {fresh.tolist()}", dict(case, threshold=repr(k2)))
+                        break
+        except Exception as e:
+            ctx.fail(f"adapter-raises:{fk.exc_kind(e)}", repr(e)[:300], case)
 
 
 def generated_threshold(ctx):
